@@ -234,6 +234,74 @@ func genC25(g *gen) {
 			}
 		}
 	}
+	// handler.go: where sessions are released, and the Released guard
+	hf := parseFile("internal/shell/handler.go")
+	relSites := map[string]int{}
+	guardOK := false
+	startFailBeforeRecord := false
+	if hf != nil {
+		for _, d := range hf.Decls {
+			fd, ok := d.(*ast.FuncDecl)
+			if !ok || fd.Body == nil {
+				continue
+			}
+			name := fd.Name.Name
+			if r := recvName(fd); r != "" {
+				name = r + "." + name
+			}
+			ast.Inspect(fd.Body, func(n ast.Node) bool {
+				if c, ok := n.(*ast.CallExpr); ok && strings.HasSuffix(nospace(src(c.Fun)), ".executor.ReleaseSession") {
+					relSites[name]++
+				}
+				return true
+			})
+			if name == "Handler.releaseSession" {
+				// ss.mu.Lock(); if !ss.Released { ss.Released = true; ... }; ss.mu.Unlock()
+				for _, st := range fd.Body.List {
+					is, ok := st.(*ast.IfStmt)
+					if !ok || nospace(src(is.Cond)) != "!ss.Released" || len(is.Body.List) == 0 {
+						continue
+					}
+					first := nospace(src(is.Body.List[0]))
+					inner := 0
+					ast.Inspect(is.Body, func(n ast.Node) bool {
+						if c, ok := n.(*ast.CallExpr); ok && strings.HasSuffix(nospace(src(c.Fun)), ".executor.ReleaseSession") {
+							inner++
+						}
+						return true
+					})
+					guardOK = first == "ss.Released=true" && inner == relSites[name]
+				}
+			}
+			if name == "Handler.handleMetadata" {
+				// the only direct release is in the branch where session.Start() failed, before ss.Session is recorded
+				relPos, recPos := token.NoPos, token.NoPos
+				ast.Inspect(fd.Body, func(n ast.Node) bool {
+					switch x := n.(type) {
+					case *ast.CallExpr:
+						if strings.HasSuffix(nospace(src(x.Fun)), ".executor.ReleaseSession") {
+							relPos = x.Pos()
+						}
+					case *ast.AssignStmt:
+						if len(x.Lhs) == 1 && nospace(src(x.Lhs[0])) == "ss.Session" {
+							recPos = x.Pos()
+						}
+					}
+					return true
+				})
+				startFailBeforeRecord = relPos != token.NoPos && recPos != token.NoPos && relPos < recPos
+			}
+		}
+	}
+	var relNames []string
+	for k := range relSites {
+		relNames = append(relNames, k)
+	}
+	sort.Strings(relNames)
+	relItems := make([]string, len(relNames))
+	for i, k := range relNames {
+		relItems[i] = fmt.Sprintf("(%s, %d)", coqString(k), relSites[k])
+	}
 	var ws []string
 	for k := range writers {
 		ws = append(ws, k)
@@ -261,5 +329,8 @@ func genC25(g *gen) {
 	g.line("Definition gen_release_one_critical_section : bool := %s.", coqBool(relLocked && relDec))
 	g.line("Definition gen_release_condition : string := %s.", coqString(relCond))
 	g.line("Definition gen_session_counter_writers : list string := %s.", coqStrList(ws))
+	g.line("Definition gen_handler_release_sites : list (string * N) := [%s].", strings.Join(relItems, "; "))
+	g.line("Definition gen_release_guarded_by_released_flag : bool := %s.", coqBool(guardOK))
+	g.line("Definition gen_start_failure_releases_before_session_recorded : bool := %s.", coqBool(startFailBeforeRecord))
 	g.line("Definition gen_process_creation_sites : list (string * bool) := [%s].", strings.Join(siteItems, "; "))
 }
